@@ -222,11 +222,11 @@ machinery to catch a change that was missed at first.
 |---|---|---|
 ''' % len(seed_rows) + "\n".join(seed_rows) + '''
 
-Not caught at all: **C13-5** (a pooled buffer returned before the WebSocket write; needs the pool to hand the same
+Not caught at all: **C13-5** and **C12-5** (a pooled buffer returned before the WebSocket write; needs the pool to hand the same
 buffer to both goroutines, no gate at that place), **C01-6** (a doubly pooled WSP buffer after a failed write; the transport leg supplies the fault and the
 players, the overlap of their delivery goroutines did not occur in six runs). Neutralised: **C11-4** (its scenario exposed
 a genuine defect; with the repair cf92d92 the seeded change no longer lets media through).
-Not caught by the check of its own property: **C01-4** (caught by `bin/check C13 quick`), **C03-3** (caught by `bin/check C04 quick` as drop-not-aligned; the
+Not caught by the check of its own property: **C01-4** (caught by `bin/check C13 quick`), **C20-6** (caught by `bin/check C03 quick`), **C03-3** (caught by `bin/check C04 quick` as drop-not-aligned; the
 C03 clause needs a schedule the quick tier does not generate) and **C08-2** (caught by `bin/check C02 quick`).
 Not adopted (see `seeded/_not_adopted/README`): C16-2, C16-3 (outside the statement), C01-5 (unreachable through the server). 
 '''
